@@ -46,29 +46,78 @@ pub fn run(ctx: &Ctx) -> Outcome {
         };
         duo_part(ctx, &mut out, scn, dev, ctx.tier.pick(60_000, 6_000_000));
     }
-    // size-blackhole / EMSGSIZE path family (MTU probing active: link MTU > 576)
-    let grid: Vec<(usize, Option<usize>, Option<usize>)> = match ctx.tier {
-        Tier::Quick => vec![(700, None, None), (700, Some(600), None), (700, Some(640), None), (700, None, Some(620)), (1500, Some(1000), None), (1500, None, Some(1300)), (900, Some(599), None)],
+    out.merge(mtu_family(ctx));
+    out.rule = "C01: fault plans enumerated by iterative deviation bounding over generated scenarios; distinct_nontrivial = executions with a distinct (timed) datagram+application trace".into();
+    out.assumptions.push("payload is position-coded (period 251 with carry), so a wrong offset, duplicate or swap is visible in the data".into());
+    out.assumptions.push("applications and sockets run on one seeded current-thread runtime under tokio's paused clock; sub-poll thread interleavings are not explored".into());
+    out
+}
+
+fn judge_mtu(scn: &Scenario, p: &Plan, l: &RunLog) -> Vec<oracles::Finding> {
+    let mut v = judge(scn, p, l);
+    // the same facts decide C14's end-to-end clauses
+    let mut extra = vec![];
+    for f in &v {
+        if f.property == "C01" {
+            let mut g = f.clone();
+            g.property = "C14";
+            g.signature = format!("mtu/{}", g.signature);
+            extra.push(g);
+        }
+    }
+    v.extend(extra);
+    v.extend(oracles::mtu_wire(scn, l, p.is_empty()));
+    v
+}
+
+/// size-blackhole / EMSGSIZE path family (MTU probing active: link MTU > 576), both address families
+pub fn mtu_family(ctx: &Ctx) -> Outcome {
+    let mut out = Outcome::default();
+    let grid: Vec<(usize, Option<usize>, Option<usize>, bool)> = match ctx.tier {
+        Tier::Quick => vec![
+            (700, None, None, false),
+            (700, Some(600), None, false),
+            (700, Some(640), None, false),
+            (700, None, Some(620), false),
+            (1500, Some(1000), None, false),
+            (1500, None, Some(1300), false),
+            (900, Some(599), None, false),
+            (1500, None, None, true),
+            (1400, Some(1320), None, true),
+        ],
         Tier::Thorough => {
             let mut g = vec![];
-            for lm in [600usize, 700, 1500] {
-                g.push((lm, None, None));
-                let mut sz = 590;
-                while sz < lm - 28 {
-                    g.push((lm, Some(sz), None));
-                    g.push((lm, None, Some(sz)));
-                    sz += if lm == 1500 { 97 } else { 13 };
+            for (lm, v6) in [(600usize, false), (700, false), (1500, false), (1500, true), (1340, true)] {
+                g.push((lm, None, None, v6));
+                let lo = if v6 { 1253 } else { 549 };
+                let hi = lm - if v6 { 48 } else { 28 };
+                let mut sz = lo + 3;
+                while sz < hi {
+                    g.push((lm, Some(sz), None, v6));
+                    g.push((lm, None, Some(sz), v6));
+                    sz += if hi - lo > 400 { 97 } else { 13 };
                 }
             }
             g
         }
     };
-    for (lm, bh, em) in grid {
-        let scn = lib::mtu_transfer(lm, bh, em, 9000, false);
-        duo_part(ctx, &mut out, &scn, ctx.tier.pick(1, 2), ctx.tier.pick(2_000, 200_000));
+    for (lm, bh, em, v6) in grid {
+        let scn = lib::mtu_transfer(lm, bh, em, 60_000, v6);
+        let always = |_: &RunLog, _: &WireEventLite| true;
+        let cfg = ExploreCfg { max_dev: ctx.tier.pick(1, 1), min_k: 1, fates: vec![crate::duo::sim::Fate::Drop], eligible: &always, judge: &judge_mtu, max_runs: ctx.tier.pick(3_000, 200_000) };
+        let r = explore(ctx, &scn, &cfg);
+        let mut p = Part::fe(&format!("duo:{}", scn.name));
+        p.evaluations = r.runs;
+        p.distinct_nontrivial = r.distinct_traces;
+        p.distinct_outcomes = r.outcome_classes.len() as u64;
+        p.bound = format!("60 kB transfer, all plans of <= {} dropped datagram(s) on top of the path's size blackhole / EMSGSIZE; per level {:?}", r.completed_bound, r.per_level);
+        if let Some(c) = &r.capped {
+            p.caps_hit.push(c.clone());
+            p.exhaustive = false;
+        }
+        p.samples.push(json!({"scenario": scn.name, "plan": []}));
+        out.violations.extend(findings_to_violations(&scn, &r.findings, &judge_mtu));
+        out.parts.push(p);
     }
-    out.rule = "C01: fault plans enumerated by iterative deviation bounding over generated scenarios; distinct_nontrivial = executions with a distinct (timed) datagram+application trace".into();
-    out.assumptions.push("payload is position-coded (period 251 with carry), so a wrong offset, duplicate or swap is visible in the data".into());
-    out.assumptions.push("applications and sockets run on one seeded current-thread runtime under tokio's paused clock; sub-poll thread interleavings are not explored".into());
     out
 }
